@@ -23,8 +23,22 @@ ASSUMPTIONS = c05.ASSUMPTIONS + ["values unaffected: checked in the failing-inpu
 _cache = {}
 
 
+def _dest_used_case(rng, two):
+    """a Move onto a wire that ordinary gates have used before (so its reset matters); afterwards the wire occurs only as the
+    second operand of two-qubit gates and no observable acts on it"""
+    instrs = [{"name": "ry", "qubits": [1], "params": [rng.choice([0.9, 2.2, -1.3])]}, gen.rand_1q(rng, 0), {"name": "h", "qubits": [0]},
+              {"name": "move", "qubits": [0, 1]}, {"name": "h", "qubits": [2]}, {"name": two, "qubits": [2, 1]}, {"name": "h", "qubits": [2]}]
+    if rng.random() < 0.5:
+        instrs += [{"name": rng.choice(["cz", "cx"]), "qubits": [2, 1]}, gen.rand_1q(rng, 2)]
+    return ("workflow", {"kind": "reuse_chain", "nq": 3, "qregs": [3], "instrs": instrs,
+                         "obs": [{"l": "IIX", "p": 0}, {"l": "IIZ", "p": 0}, {"l": "IIY", "p": 0}], "auto": rng.random() < 0.5, "N": None,
+                         "seed": rng.randrange(1 << 30), "single": rng.random() < 0.5})
+
+
 def cases(rng, tier):
     N = 50 if tier == "quick" else 600
+    for two in ("cz", "cy", "ch"):
+        yield _dest_used_case(rng, two)
     for _ in range(N):
         kind = rng.choice(["markers", "markers", "markers", "fresh_moves", "reuse_chain"])
         nq = rng.randint(1, 4) if kind == "markers" else rng.randint(2, 4)
@@ -61,7 +75,7 @@ def cases(rng, tier):
             a, b = 0, 1
             instrs.append(gen.rand_1q(rng, a))
             tail = nq > 2 and rng.random() < 0.5
-            nmoves = rng.choice([2, 2, 2, 3, 3, 4])
+            nmoves = rng.choice([2, 2, 2, 3, 3] if tier == "quick" else [2, 2, 2, 3, 3, 4])
             for mv in range(nmoves):
                 instrs.append({"name": "move", "qubits": [a, b]})
                 if tail and mv == nmoves - 1:
